@@ -49,6 +49,9 @@ def main():
     else:
         cases = C.FAMILIES[job["shard"][0]].gen(tuplify(job["shard"]), job["tier"])
     skip = set(job.get("skip") or ())
+    import gc
+    gc.collect()
+    gc.freeze()          # later gc.collect() calls (life-cycle histories) only look at objects created by the cases
     pfd = os.open(job["progress"], os.O_WRONLY | os.O_CREAT, 0o644)
     outcomes = {}
     excs = {}
